@@ -21,6 +21,17 @@ F = [
                 'second execution of a switch): while the subgraph re-iterates, the second scope takes the duplicate-request path of '
                 '_execute_node, reads the hidden result as None and _run_node stores and propagates that None (manager.py 309-314, 645-646)',
       witness={'C03': 'witnesses/KF-REC2.json', 'C01': 'witnesses/KF-REC2.json'}),
+ dict(id='KF-RECINNER', family='rec_inner_sw', properties=RUNP + ['C19'],
+      kinds=['never_node_ran', 'unexpected_args', 'over_execution', 'deadlock', 'cancel_hangs'],
+      mechanism='the recurrent subgraph is built from the unfiltered graph (manager.py _run_recurrent_subgraph: get_connected_subgraph(self.dag.graph, ...)), '
+                'so on every re-iteration all cases of a switch inside the subgraph are executed eagerly, selected or not',
+      witness={'C09': 'witnesses/KF-RECINNER.json', 'C03': 'witnesses/KF-RECINNER.json'}),
+ dict(id='KF-RECINNER-ONEOF', family='rec_inner_oneof', properties=RUNP + ['C19'],
+      kinds=['never_node_ran', 'unexpected_args', 'over_execution', 'deadlock', 'cancel_hangs',
+             'bad_arg_exception_instance', 'error_instead_of_value', 'wrong_error'],
+      mechanism='same mechanism for a one-of inside a recurrent subgraph: on re-iteration every candidate is executed eagerly as an ordinary '
+                'node of the subgraph (laziness and containment are lost)',
+      witness={'C10': 'witnesses/KF-RECINNER-ONEOF.json'}),
  dict(id='KF-STORE-REC', family='rec_iterates', properties=['C19'],
       kinds=['recurrent_marker_saved', 'saved_more_than_once', 'write_once_store_failed_run', 'exception_saved', 'saved_value_not_final'],
       mechanism='_run_node saves every intermediate result (manager.py 645-649, see the TODO): the Recurrent marker of the destination and '
